@@ -66,6 +66,9 @@ type World struct {
 	// only moves when none is running or all of them wait for the clock.
 	Busy     int64
 	lastMove int64 // unix nanoseconds of the last observed movement (see QuietFor)
+	// MultiWire: parties created from now on may have several wire addresses (nodes serving
+	// several backends), see gen.WireAddrAny.
+	MultiWire bool
 }
 
 // QuietFor tells for how long nothing has moved in the world: no envelope delivered, no persister
@@ -260,7 +263,11 @@ func (w *World) NewParty(name string, funds int64) *Party {
 	if err := addr.UnmarshalBinary(b); err != nil {
 		panic(err)
 	}
-	p := &Party{Name: name, W: w, Acc: acc, Addr: addr, WAddr: gen.AddrMap(addr), Wire: gen.WireAddr(w.Rng),
+	wireAddr := gen.WireAddr(w.Rng)
+	if w.MultiWire {
+		wireAddr = gen.WireAddrAny(w.Rng)
+	}
+	p := &Party{Name: name, W: w, Acc: acc, Addr: addr, WAddr: gen.AddrMap(addr), Wire: wireAddr,
 		watched: map[channel.ID]bool{}, published: map[channel.ID][]uint64{}, pubStamp: map[channel.ID][]int64{},
 		channels: map[channel.ID]*client.Channel{}, newCh: make(chan *client.Channel, 64), Timeout: 30 * time.Second}
 	for _, a := range w.Assets {
